@@ -81,9 +81,9 @@ R.contract("Node._record_answer", params={"self": "Node", "conn": "PeerConnectio
                      "implies(not old(o in self._sent_answers) and o in self._sent_answers, "
                      "maxlen(self._sent_answers[o]) == self.retransmit_queue_size)"),
                     ("windows-stay-well-formed", "win_ok(self, o)")],
-           raises=[Raise("TypeError", "mkey(message) in self._origin_waiting_answer and "
-                                      "not is_none(peer_of(self, conn)) and hasattr(message, 'result_code') and "
-                                      "(not has(message, 'result_code') or is_none(message.result_code))", "only_if")],
+           # raises: nothing.  Until session 7 this contract *encoded* what the code did (TypeError from the statistics call
+           # for an answer without Result-Code); written from C07 ("never two answers for one request": a send that fails
+           # after queueing makes the node answer 5012 as well) it is refuted on that code - genuine defect, fixed in /repo.
            modifies=["dict:self._sent_answers", "dict:self._origin_waiting_answer",
                      "deque:self._sent_answers[self._origin_waiting_answer[mkey(message)][0]] "
                      "if mkey(message) in self._origin_waiting_answer"],
@@ -115,8 +115,6 @@ R.contract("Node.send_message", params={"self": "Node", "conn": "PeerConnection"
                      "o in self._sent_answers and window(self, o) == "
                      "old(dq_push(window(self, o), message.header.end_to_end_identifier, "
                      "ite(o in self._sent_answers, maxlen(self._sent_answers[o]), self.retransmit_queue_size))))")],
-           raises=[Raise("TypeError", "not is_req(message) and " + _REC_TYPEERR, "only_if")],
-           ensures_exc={"TypeError": [("queued-before-failing", "items(out(conn)) == old(items(out(conn))) + [message]")]},
            ghost_modifies=["conn._write_msg_queue.g_put"],
            modifies=["dict:self._sent_answers if not is_req(message)",
                      "dict:self._origin_waiting_answer if not is_req(message)",
@@ -557,7 +555,7 @@ R.contract("Application.send_answer", params={"self": "Application", "message": 
                      "implies(k0 in old(some(self._node).connections) and old(some(self._node).connections[k0].host_identity) == h0, "
                      "items(out(some(self._node).connections[k0])) == old(items(out(some(self._node).connections[k0]))) + [message])"),
                     ("second-submission-fails", "not pwa_has(some(self._node), h0, message.header.hop_by_hop_identifier)")],
-           raises=[Raise("NotRoutable", "True", "may"), Raise("TypeError", "True", "may")],
+           raises=[Raise("NotRoutable", "True", "may")],
            ensures_exc={"NotRoutable": [("nothing-transmitted",
                                          "implies(k0 in some(self._node).connections, "
                                          "items(out(some(self._node).connections[k0])) == old(items(out(some(self._node).connections[k0]))))")]},
